@@ -175,6 +175,27 @@ theorem unsigned_is_prefix (hca : Canonical pa) {b : Bytes} {t : Tx A Au}
           unfold encodeUnsigned
           simp only [base_encode_decode hbase, mapM?_map hca _ _ hacts]
 
+/-! ### re-signing parsed transaction data
+
+**Aliasing assumption.**  In the model a decoded `Tx` is an immutable value and `encodeTx` /
+`encodeUnsigned` build fresh byte strings.  The Go code caches sub-slices of the accepted input
+(`tx.bytes = r.B`, `unsignedBytes = r.B[:n]`, a block's `bytes`) inside the parsed values.  That no
+later API call (`Sign` on the parsed `TransactionData`, `MarshalJSON`, `Marshal` of an enclosing
+block or batch, …) writes through those slices is therefore *not* a theorem of this model but an
+assumption about the implementation; the tie checks it on every run (ops `rtx` / `rblock` /
+`rbatch`: parse, `Sign` every parsed transaction again with another auth, then compare the parsed
+values' bytes, sizes and IDs with the accepted input; oracle key `accepted-bytes-mutated`).
+What `Sign` on parsed data must *return* is a theorem: -/
+
+/-- **resign_is_body_plus_new_auth**: signing the data of an accepted transaction `b` with
+another auth `a'` yields the accepted signed message (the slice `UnmarshalCanotoFrom` cached)
+followed by the new auth field — a fresh value; `b` itself is not part of the result. -/
+theorem resign_is_body_plus_new_auth (hca : Canonical pa) {b : Bytes} {t : Tx A Au}
+    (h : decodeTx pa pu b = some t) (a' : Au) :
+    encodeTx pa pu { t with auth := a' } = unsignedSlice b (rawAuth b) ++ authField (pu.bytes a') := by
+  rw [(unsigned_is_prefix pa pu hca h).1]
+  exact encode_tx_split _ _ _
+
 /-- **distinct_encodings_distinct_messages**: two accepted transactions whose signed message
 and auth bytes coincide are the same byte string (no assumption on the registered parsers), so
 no two distinct accepted encodings share a body and signature. -/
